@@ -380,15 +380,42 @@ def run_check(prop: str, tier: str) -> int:
                           for ch in f"{clause}-{k}")[:80]
             path = core.write_replay(prop, seed, tier, tag, _jsonable(small),
                                      _jsonable(small_res), doc, runs)
-            rc, out = core.replay_in_fresh_interpreter(
-                path, timeout=2 * cap + 120)
-            ok = (rc == 1 and f"clause={sv['clause']}" in out)
+            def replays(pth, tries):
+                for _ in range(tries):
+                    rc_, out_ = core.replay_in_fresh_interpreter(
+                        pth, timeout=2 * cap + 120)
+                    if rc_ == 1 and f"clause={sv['clause']}" in out_:
+                        return True, rc_, out_
+                return False, rc_, out_
+            ok, rc, out = replays(path, 1)
+            reproducible = "yes"
             if not ok:
-                harness_errors.append(
-                    (k, f"replay did not reproduce (rc={rc}): "
-                        f"{out[-800:]}"))
-                continue
+                # violations that come from undefined behaviour (a kernel
+                # reading beyond an array) need not repeat bit for bit:
+                # retry, then fall back to the unshrunk scenario
+                ok, rc, out = replays(path, 2)
+                if not ok:
+                    orig_res = iso.execute(doc)
+                    if orig_res.get("violation") and \
+                            orig_res["violation"]["clause"] == clause:
+                        small, small_res, runs = doc, orig_res, 0
+                        sv = orig_res["violation"]
+                        path = core.write_replay(
+                            prop, seed, tier, tag + "-unshrunk",
+                            _jsonable(small), _jsonable(small_res), doc, 0)
+                        ok, rc, out = replays(path, 3)
+                        if not ok:
+                            # seen in the worker and twice in isolated
+                            # children, but not in this replay: still a
+                            # violation, flagged as not bit-reproducible
+                            ok, reproducible = True, "intermittent"
+                if not ok:
+                    harness_errors.append(
+                        (k, f"replay did not reproduce (rc={rc}): "
+                            f"{out[-800:]}"))
+                    continue
             reported.append({"key": k, "clause": sv["clause"],
+                             "reproducible": reproducible,
                              "detail": sv["detail"], "replay": path,
                              "shrink_runs": runs,
                              "count_in_batch": len(keys)})
@@ -487,6 +514,7 @@ def run_check(prop: str, tier: str) -> int:
     for rep in reported:
         print(f"VIOLATION property={prop} replay={rep['replay']} "
               f"clause={rep['clause']} scenario={rep['key']} "
+              f"reproducible={rep.get('reproducible', 'yes')} "
               f"count={rep['count_in_batch']} :: {rep['detail'][:300]}",
               flush=True)
     print(f"[{prop}] scenarios={n_exec} ops={ops} nontrivial_distinct="
